@@ -906,3 +906,7 @@ v("d55-compose-blocks-to-rows-ignores-result-names", "C17", "cdata.py",
 v("d56-polars-strict-stacking", "C17", PM, '            rows, how="vertical_relaxed"\n', '            rows, how="vertical"\n')
 v("d57-polars-concat-rows-drops-result", "C03", PM, '        return pl.concat(frame_list, how="vertical")\n', '        pl.concat(frame_list, how="vertical")\n')
 v("d57-polars-concat-columns-drops-result", "C03", PM, '        res = pl.concat(frame_list, how="horizontal")\n        return res\n', '        res = pl.concat(frame_list, how="horizontal")\n')
+
+v("d58-polars-group-order-arbitrary", "C19", PM, "        res = res.group_by(group_by, maintain_order=True).agg(produced_columns)", "        res = res.group_by(group_by).agg(produced_columns)")
+v("d58-polars-order-rows-sort-unstable", "C19", PM, "            nulls_last=True,\n            maintain_order=True,\n", "            nulls_last=True,\n")
+v("d58-polars-window-sort-unstable", "C19", PM, "                by=op.order_by, descending=reversed_cols, maintain_order=True\n", "                by=op.order_by, descending=reversed_cols\n")
